@@ -33,6 +33,9 @@ LEVEL_TEXT = (
 )
 LEVEL_NOTE = "Trusted: reference implementations of C02, libxcrypt / pyca bcrypt / hashlib as witnesses of host support, Hypothesis."
 TECHNIQUE = "Hypothesis differential testing across backends + rule-based state machine over backend-switch histories"
+#: thorough tier: seed-dependent tasks are repeated under this many derived seeds (run.py); the listed task functions enumerate fixed domains
+THOROUGH_REPS = 3
+DETERMINISTIC_FNS = ('t_avail', 't_avail_default')
 
 MULTI = ["md5_crypt", "sha1_crypt", "sha256_crypt", "sha512_crypt", "des_crypt", "bsdi_crypt", "bcrypt", "bcrypt_sha256", "scrypt",
          "ldap_md5_crypt", "ldap_sha256_crypt", "ldap_des_crypt", "ldap_bcrypt", "django_bcrypt", "django_bcrypt_sha256", "ldap_sha1_crypt",
